@@ -7,6 +7,11 @@ HERE = os.path.dirname(os.path.dirname(os.path.abspath(__file__)))
 
 # id -> (engine, technique, level text, level note, design ref)
 CHECKS = {
+    "C10": ("XH", "CrossHair-driven enumeration of rendering histories (z3 choice variables for the first step, native sweep of the rest) over long-lived printable objects, with id() as seen by ak.ppobj "
+            "replaced by an adversarial environment stub constrained by CPython's contract; compared with fresh objects / no_color twins through an independent SGR stripper",
+            "bounded exhaustive exploration: histories of <= 2 steps exhaustively (<= 3-4 partially) over 5 object kinds x 3 configurations x no_color x explicit/global route; "
+            "configurations created and discarded between steps; id() may hand a new palette the id of any discarded one",
+            "id() stub is the environment model (replay first tries real CPython address reuse, then the stub); console help only for layout-vs-colors", "DESIGN.md 3/C10"),
     "C18": ("XH", "CrossHair-driven enumeration (z3 choice variables: column permutation, leading blank rows, table offset, end rule, ladder, missing optional column) with native sweeps over row contents; "
             "stub worksheet; oracle = converter applied at the reported origin + independent reference locator + filled-in twin for ladder sheets",
             "bounded exhaustive exploration with exhaustion certificate over 6 rule sets (plain, optional, external, ranged dict/set, two classes per row), <= 5-6 columns in sampled-permutation order, "
